@@ -2246,6 +2246,9 @@ where
     fn reconnect(&mut self, nid: NodeId, addr: Address) -> bool {
         if let Some(sess) = self.sessions.get_mut(&nid) {
             sess.to_initial();
+            // Nb. The session may have been taken over by an inbound connection since it was
+            // created. We are dialing now: a failure of this dial is reported for the outbound link.
+            sess.link = Link::Outbound;
             self.outbox.connect(nid, addr);
 
             return true;
